@@ -62,6 +62,8 @@ let pcall () : call = match next () with
   | "cartesian" -> CCartesian | "repeat_concat" -> CRepeatConcat (nat ()) | "power" -> CPower (nat ())
   | "join" -> CJoin (pstr ()) | "split" -> CSplit (pstr ()) | "words" -> CWords | "lines" -> CLines
   | "unwords" -> CUnwords | "unlines" -> CUnlines
+  | "splitn" -> let sep = pstr () in CSplitN (sep, nat ()) | "str_repeat" -> CStrRepeat (nat ())
+  | "take_n" -> CTakeN (nat ()) | "drop_n" -> CDropN (nat ())
   | "permutations" -> CPermutations | "combinations" -> CCombinations (nat ()) | "subsequences" -> CSubsequences
   | s -> raise (Bad ("call " ^ s))
 
